@@ -199,8 +199,33 @@ def run_hist(c):
     return {'steps': steps}
 
 
+def run_mc(c):
+    """multichannel: items may be ['L', [...]] lists"""
+    def item(a, f):
+        return [f(x) for x in a[1]] if a[0] == 'L' else f(a)
+    sp = c['env']
+    def mk():
+        kw = {} if sp.get('offset', 'absent') == 'absent' else {'offset': num(sp['offset'])}
+        return Env([item(a, num) for a in sp['levels']], [item(a, num) for a in sp['times']],
+                   [item(a, curve) for a in sp['curves']], sp['rel'], sp['loop'], **kw)
+    e = guarded(mk)
+    if isinstance(e, dict):
+        return {'chans': e, 'at': [e for _ in c['ts']]}
+    def chans():
+        fmt = e._envgen_format()
+        if not (isinstance(fmt, list) and all(isinstance(ch, tuple) for ch in fmt)):
+            raise AssertionError('shape')
+        return [[enc(x) for x in ch] for ch in fmt]
+    def at(t):
+        v = e._at(float(Fraction(t)))
+        return [enc(x) for x in (v if isinstance(v, list) else [v])]
+    return {'chans': guarded(chans), 'at': [guarded(lambda: at(t)) for t in c['ts']]}
+
+
 def run(c):
     import copy
+    if c['k'] == 'mc':
+        return run_mc(c)
     if c['k'] == 'hist':
         return run_hist(c)
     if c['k'] == 'raw':
